@@ -39,6 +39,25 @@ theorem C17_seen_validated (cfg : Cfg) (C : Crypto Key Sig) (tx : Tx) (addrs : L
     simp [this] at hp
   simp [seen, h, hne]
 
+/-- **Object state.** Whatever was cached in `SignedAddr` before validation (the getter called first, an earlier
+pass, an assignment): after an accepting pass the validating node's `GetSignatureAddresses()` is the validator's list. -/
+theorem C17_validated_any_state (cfg : Cfg) (C : Crypto Key Sig) (tx : Tx) (pre addrs : List Addr)
+    (h : (checkSigsObj cfg C ⟨tx, pre⟩).1 = .ok addrs) :
+    (getSigAddrs cfg C.toLib (checkSigsObj cfg C ⟨tx, pre⟩).2).1 = seen cfg C true tx := by
+  obtain ⟨hc, hs⟩ := checkSigsObj_ok cfg C tx pre addrs h
+  rw [hs, C17_seen_validated cfg C tx addrs hc]
+  obtain ⟨_, _, hp⟩ := checkSigsWith_ok cfg C.toLib (verifier C tx) tx addrs hc
+  have hne : addrs.length ≠ 0 := by
+    intro h0
+    have : addrs = [] := List.eq_nil_of_length_eq_zero h0
+    simp [this] at hp
+  simp [getSigAddrs, hne]
+
+/-- … and a node that did not validate sees the fallback list, which is what `getSigAddrs` computes on a fresh object -/
+theorem C17_unvalidated_is_fallback (cfg : Cfg) (C : Crypto Key Sig) (tx : Tx) :
+    (getSigAddrs cfg C.toLib ⟨tx, []⟩).1 = seen cfg C false tx := by
+  simp [getSigAddrs, seen]
+
 /-- **Repaired fallback: both nodes see the same list** (hence the same set, and `CheckWitness` agrees). -/
 theorem C17_function_of_bytes (cfg : Cfg) (hf : cfg.fallback = .sound) (C : Crypto Key Sig) (tx : Tx)
     (addrs : List Addr) (h : checkSigs cfg C tx = .ok addrs) (b1 b2 : Bool) :
